@@ -1,6 +1,7 @@
 package main
 
 import (
+	"github.com/pojntfx/stfs/pkg/config"
 	"github.com/spf13/afero"
 	"sort"
 	"bytes"
@@ -349,6 +350,50 @@ func openRun(prop, tier string, c Case, w *Worker) (res Result) {
 		checked++
 		res.count("scenarios_checked", 1)
 		res.count("scenarios_index_"+sc.Index, 1)
+	}
+	// the documented composition with the directory cache (what `stfs serve ftp` uses), over a cache directory that an earlier session -
+	// over an earlier state of the tape - left behind: the opened filesystem still has to show what a rebuild of THIS tape shows
+	if p.Witness == "" && len(t.recs) >= 4 {
+		early := t.recs[len(t.recs)/2].Off
+		if etree, _, eroot, eerr, _ := scratchState(w, cfg, t.img[:early]); eerr == nil && eroot && etree != nil {
+			if ftree, _, froot, ferr, _ := scratchState(w, cfg, t.img); ferr == nil && froot && ftree != nil {
+				cacheDir := w.NewDir("c16cache") + "/filesystem"
+				session := func(img []byte, tag string) (Tree, error) {
+					d := w.NewDir("c16s" + tag)
+					_ = os.MkdirAll(tapeDir(d), 0o777)
+					if err := os.WriteFile(tapeDir(d)+"/drive.tar", img, 0o666); err != nil {
+						return nil, fmt.Errorf("harness: %w", err)
+					}
+					rg, err := NewRig(d, cfg)
+					if err != nil {
+						return nil, fmt.Errorf("harness: %w", err)
+					}
+					defer rg.Close()
+					rg.FSCache, rg.FSCacheDir = config.FileSystemCacheTypeDir, cacheDir
+					if err := rg.Init(); err != nil {
+						return nil, err
+					}
+					tr, err := WalkTree(rg.FS, true)
+					rg.LocksSettled()
+					return tr, err
+				}
+				if _, err := session(t.img[:early], "1"); err == nil {
+					got, err := session(t.img, "2")
+					desc := fmt.Sprintf("[%s] tape of %d bytes opened through the directory-cache composition with the cache directory of an earlier session (tape as of byte %d): ", cfg, n, early)
+					if err != nil {
+						if !strings.HasPrefix(err.Error(), "harness:") {
+							res.violate("c16|"+kind+"|cached-composition|open", desc+err.Error())
+							return
+						}
+					} else if ds := DiffTrees(got, ftree, "opened", "scratch-rebuild", true); len(ds) > 0 {
+						res.violate("c16|"+kind+"|cached-composition|differs", desc+"differs from a from-scratch rebuild: "+shortList(ds, 5))
+						return
+					} else {
+						res.count("cached_composition_reopens", 1)
+					}
+				}
+			}
+		}
 	}
 	res.NonTrivial = checked >= 6 && len(t.recs) >= 4
 	if p.Witness != "" {
